@@ -31,7 +31,7 @@ ASSUMPTIONS = ["file-system model = POSIX as validated by the differential self-
 OUTSIDE = ["pandas frames (parquet is C code writing through the real file system): not covered", "pickled values are concrete witnesses (None, a tuple, a dict): pickle is C code", "DBFS store (C19)", "strings longer than 2 code points / bytes longer than 2 (size-dependent behaviour is only reached through the scale-down of module-level size constants)"]
 FUNCTIONS_ENCODED = ["dds.codec.CodecRegistry.*", "dds.codec.codec_registry", "dds.codecs.builtins.*", "dds.store.LocalFileStore.store_blob", "dds.store.LocalFileStore.fetch_blob", "dds.store.LocalFileStore.has_blob"]
 BOUNDS = {"quick": {"str": "<= 1 arbitrary code point with registrations, <= 2 without", "bytes": "<= 2 arbitrary bytes", "registrations": "<= 3 out of 6 kinds, or a fresh process", "pickle": ["None", "(1, 'a')", "{'k': [1, 2]}"]}}
-BOUNDS["thorough"] = BOUNDS["quick"]
+BOUNDS["thorough"] = dict(BOUNDS["quick"], str="<= 2 arbitrary code points with registrations, <= 3 without", bytes="<= 3 arbitrary bytes")
 LAST_DETAIL = [""]
 KEY = "ab12"
 
@@ -272,7 +272,7 @@ def make_fn(fn, sel, tag):
             pres.append("len(s) <= %d" % sel.get("slen", 1))
         elif sel["type"] == "bytes":
             params.append(("b", "bytes"))
-            pres.append("len(b) <= 2")
+            pres.append("len(b) <= %d" % sel.get("blen", 2))
         else:
             params.append(("pk", "int"))
             pres.append("0 <= pk <= 2")
@@ -281,9 +281,10 @@ def make_fn(fn, sel, tag):
 
 
 def queries(tier):
-    qs = [{"id": "rt.%s.o%d" % (t, o1), "fn": "rt", "sel": {"type": t, "o1": o1}, "timeout": 600} for t in ("str", "bytes", "pickle") for o1 in range(7)]
+    deep = tier == "thorough"
+    qs = [{"id": "rt.%s.o%d" % (t, o1), "fn": "rt", "sel": dict({"type": t, "o1": o1}, **({"slen": 2, "blen": 3} if deep else {})), "timeout": 2400 if deep else 600} for t in ("str", "bytes", "pickle") for o1 in range(7)]
     # longer strings without registrations (same process / fresh process)
-    qs += [{"id": "rt.str.len2.%s" % ("same" if nr == 1 else "fresh"), "fn": "rt", "sel": {"type": "str", "noreg": nr, "slen": 2}, "timeout": 600} for nr in (1, 7)]
+    qs += [{"id": "rt.str.len%d.%s" % (3 if deep else 2, "same" if nr == 1 else "fresh"), "fn": "rt", "sel": {"type": "str", "noreg": nr, "slen": 3 if deep else 2}, "timeout": 2400 if deep else 600} for nr in (1, 7)]
     # scale-down of buffer / chunk sizes: only when the codec / store modules define such constants (none on the pinned tree)
     if _size_constants():
         qs += [{"id": "rt.%s.scaled" % t, "fn": "rt", "sel": dict({"type": t, "noreg": 1, "scaled": True}, **({"slen": 2} if t == "str" else {})), "timeout": 600} for t in ("str", "bytes")]
